@@ -15,7 +15,7 @@ from vf.xmodel import Schema, Rop, build_api, build_loader
 
 SHARDS = {'quick': 16, 'thorough': 32}
 TIMEOUT = {'quick': 900, 'thorough': 3600}
-MUST_HIT = ['Cell.two-classes', 'Cell.read-all-spellings', 'Cell.serialize', 'Cell.where_eq',
+MUST_HIT = ['Cell.where_eq-identifier-twin', 'Cell.two-classes', 'Cell.read-all-spellings', 'Cell.serialize', 'Cell.where_eq',
             'Referential.write-rejected', 'Referential.ctor-keyword', 'Referential.loaded-instance', 'ClassName.spellings']
 MUST_REACH = ['xtuml/meta.py:Class.__getattr__', 'xtuml/meta.py:Class.__setattr__',
               'xtuml/meta.py:Class.__delattr__', 'xtuml/meta.py:MetaModel.find_metaclass',
@@ -112,6 +112,21 @@ def observe(ctx, m, inst, declared, ty, cell, sps, keep):
                                'filter %s=%r does not match (cell %r)' % (sp, cell, cell))
         if inst in m.select_many('Thng', xtuml.where_eq(**{sp: other})):
             raise Mismatch('filter/matches-other-value', 'filter %s=%r matches, cell %r' % (sp, other, cell))
+    # a second instance holding the same identifying values (identifiers are declared, not enforced):
+    # a filter that covers the whole identifier matches both under every spelling of either name
+    ctx.hit('Cell.where_eq-identifier-twin')
+    twin = m.new('Thng', **{'Id': inst.Id, declared: cell, 'Keep': 'twin'})
+    try:
+        for sp_id in ('Id', 'ID', 'id', 'iD'):
+            for sp in sps:
+                for flt in (xtuml.where_eq(**{sp_id: inst.Id, sp: cell}), {sp: cell, sp_id: inst.Id}):
+                    got = list(m.select_many('Thng', flt))
+                    if len(got) != 2 or inst not in got or twin not in got:
+                        raise Mismatch('filter/does-not-match-stored-value',
+                                       'two instances hold %s=%r, %s=%r; the filter over (%s, %s) selects %d of them'
+                                       % ('Id', inst.Id, declared, cell, sp_id, sp, len(got)))
+    finally:
+        xtuml.delete(twin)
 
 
 def run_attr_history(ctx, route, declared, ty, hist, sps):
